@@ -35,6 +35,8 @@ def run(tier):
         silent = Report("C18", tier, "other")
         for t in T:
             k, n = t.kind_and_name()
+            if k == "mod" and attrs.get(n, []) is None:
+                continue  # `//! twin: skip`
             if k != "mod" or t.body_group() is None or n not in rmods or rmods[n].body_group() is None:
                 continue
             w = Walker(silent)
